@@ -1,8 +1,12 @@
 /-
-  C16 — property theorems (only property theorems, full-strength statements kept visible as
-  `def …_full : Prop`, witnesses and non-vacuity examples live here; helper lemmas and the
+  C16 — property theorems (only property theorems; the one clause the code still violates, F9c,
+  keeps its full-strength statement visible as `def …_full : Prop` next to a `_partial` theorem
+  and a kernel-checked witness; non-vacuity examples live here; helper lemmas and the
   hypothesis predicates `CanonKeys`, `NodupKeys`, `NoRename`, `ValidRule`, `valuesOf` are in
   `FwdVerif/Lemmas/C16.lean`).
+
+  The parser clauses "value without CR/LF" and "print/parse round trip" and the `%name` clause
+  "keeps every field line" are proved at full strength since the repairs of F9b, F9e and F9a.
 
   Byte strings used in the concrete examples:
     "a" = [97]   "b" = [98]   "v" = [118]   ":" = 58   ";" = 59   "-" = 45   "*" = 42   "%" = 37
@@ -33,40 +37,24 @@ theorem c16_parse_name_token {v : Bytes} {r : Rule} (h : parseRule v = some r) :
 example : parseRule [88, 45, 70, 111, 111, 59] = some (.empty [88, 45, 70, 111, 111]) := by
   decide                                                                            -- "X-Foo;"
 
-/-- full clause "value without CR/LF" — FALSE of the unchanged code (F9), see the witness -/
-def c16_parse_value_legal_full : Prop :=
-  ∀ v n val, parseRule v = some (.add n val) → (13 : UInt8) ∉ val ∧ (10 : UInt8) ∉ val
-
-/-- no LF in the value of an accepted add-rule, unconditionally -/
+/-- no LF in the value of an accepted add-rule -/
 theorem c16_parse_value_no_lf {v n val : Bytes} (h : parseRule v = some (.add n val)) :
     (10 : UInt8) ∉ val :=
-  (parseRule_add h).2.2.2.2.1
+  (parseRule_add_no_crlf h).2
 
 example : parseRule [97, 58, 32, 98, 10] = some (.add [97] [98]) := by decide        -- "a: b\n"
 
-/-- `a:b\r\n` is accepted with the value `b\r`: `(.*)` is greedy and takes the CR -/
-theorem c16_parse_value_cr_witness :
-    ∃ v n val, parseRule v = some (.add n val) ∧ (13 : UInt8) ∈ val :=
-  ⟨[97, 58, 98, 13, 10], [97], [98, 13], by decide, by decide⟩
+/-- the value of an accepted add-rule contains neither CR nor LF, for every rule string
+    (full clause; F9b repaired: the value class of the rule regexp is `[^\r\n]*`) -/
+theorem c16_parse_value_legal {v n val : Bytes} (h : parseRule v = some (.add n val)) :
+    (13 : UInt8) ∉ val ∧ (10 : UInt8) ∉ val :=
+  parseRule_add_no_crlf h
 
-theorem c16_parse_value_legal_full_false : ¬ c16_parse_value_legal_full := by
-  intro h
-  exact (h [97, 58, 98, 13, 10] [97] [98, 13] (by decide)).1 (by decide)
-
-/-- the legality clause under the hypothesis that excludes the defect class: a rule string
-    without CR yields a value without CR and LF -/
-theorem c16_parse_value_no_crlf_partial {v n val : Bytes} (hcr : (13 : UInt8) ∉ v)
-    (h : parseRule v = some (.add n val)) : (13 : UInt8) ∉ val ∧ (10 : UInt8) ∉ val :=
-  ⟨fun hm => hcr ((parseRule_add h).2.2.2.2.2.2 _ hm), c16_parse_value_no_lf h⟩
-
-example : (13 : UInt8) ∉ [97, 58, 32, 98, 10] ∧
-    parseRule [97, 58, 32, 98, 10] = some (.add [97] [98]) := by decide
+-- "a:b\r\n" (the former F9b witness) now yields the value "b"; "a:b\rc" is rejected
+example : parseRule [97, 58, 98, 13, 10] = some (.add [97] [98]) ∧
+    parseRule [97, 58, 98, 13, 99] = none := by decide
 
 /-! ## B. Print / parse round trip -/
-
-/-- full clause — FALSE of the unchanged code for add-rules whose value ends in `;` -/
-def c16_roundtrip_full : Prop :=
-  ∀ v r, parseRule v = some r → parseRule (printRule r) = some r
 
 /-- every accepted rule other than `name:value` prints back to exactly the accepted string -/
 theorem c16_print_exact_non_add {v : Bytes} {r : Rule} (h : parseRule v = some r)
@@ -77,35 +65,31 @@ example : parseRule [37, 120, 45, 102, 111, 111] = some (.rename [120, 45, 102, 
     ∀ n val, Rule.rename [120, 45, 102, 111, 111] ≠ .add n val :=
   ⟨by decide, fun _ _ h => Rule.noConfusion h⟩                                      -- "%x-foo"
 
-/-- round trip for every accepted rule except add-rules whose value ends in `;` (59) -/
-theorem c16_roundtrip_partial {v : Bytes} {r : Rule} (h : parseRule v = some r)
-    (hsemi : ∀ n val, r = .add n val → val.getLast? ≠ some 59) :
-    parseRule (printRule r) = some r := by
-  cases r with
-  | add n val => exact roundtrip_add h (hsemi n val rfl)
-  | remove n => rw [c16_print_exact_non_add h (fun _ _ e => Rule.noConfusion e)]; exact h
-  | removePrefix n => rw [c16_print_exact_non_add h (fun _ _ e => Rule.noConfusion e)]; exact h
-  | empty n => rw [c16_print_exact_non_add h (fun _ _ e => Rule.noConfusion e)]; exact h
-  | rename n => rw [c16_print_exact_non_add h (fun _ _ e => Rule.noConfusion e)]; exact h
+/-- round trip for every accepted rule (full clause; F9e repaired: a string ending in `;` is the
+    set-empty rule only when what precedes the `;` is a valid name) -/
+theorem c16_roundtrip {v : Bytes} {r : Rule} (h : parseRule v = some r) :
+    parseRule (printRule r) = some r :=
+  roundtrip h
 
-example : parseRule [97, 58, 32, 98, 13, 10] = some (.add [97] [98, 13]) ∧
-    ([98, 13] : Bytes).getLast? ≠ some 59 := by decide                             -- "a: b\r\n"
+-- "a:b;\n" (the former F9e witness) parses to add "a" "b;", which prints as "a:b;", which now
+-- parses to the same add-rule
+example : parseRule [97, 58, 98, 59, 10] = some (.add [97] [98, 59]) ∧
+    printRule (.add [97] [98, 59]) = [97, 58, 98, 59] ∧
+    parseRule [97, 58, 98, 59] = some (.add [97] [98, 59]) := by decide
 
-/-- `a:b;\n` parses to add "a" "b;", which prints as `a:b;`, which is read as the set-empty
-    rule for the (invalid) name `a:b` and rejected -/
-theorem c16_roundtrip_witness :
-    ∃ v r, parseRule v = some r ∧ parseRule (printRule r) = none :=
-  ⟨[97, 58, 98, 59, 10], .add [97] [98, 59], by decide, by decide⟩
+/-- the set-empty rule is accepted exactly for `name;` with a name in `[A-Za-z0-9-]+` -/
+theorem c16_parse_empty_iff (v n : Bytes) :
+    parseRule v = some (.empty n) ↔ v = n ++ [59] ∧ ValidRule (.empty n) ∧
+      n.head? ≠ some 45 ∧ n.head? ≠ some 37 :=
+  parseRule_empty_iff v n
 
-theorem c16_roundtrip_full_false : ¬ c16_roundtrip_full := by
-  intro h
-  have := h [97, 58, 98, 59, 10] (.add [97] [98, 59]) (by decide)
-  exact absurd this (by decide)
+example : parseRule [88, 45, 70, 111, 111, 59] = some (.empty [88, 45, 70, 111, 111]) ∧
+    parseRule [97, 32, 59] = none := by decide                              -- "X-Foo;"   "a ;"
 
 /-! ## C. `Apply` against the documented meaning on the case-insensitive field-line view -/
 
-/-- full clause — FALSE of the unchanged code (F9): `%name` breaks the canonical-key invariant
-    that `Del/Set/Add` rely on (and deletes the field when `name` is already canonical) -/
+/-- full clause — FALSE of the code (F9c, not repaired): `%name` breaks the canonical-key invariant
+    that `Del/Set/Add` rely on -/
 def c16_apply_spec_full : Prop :=
   ∀ rs h, (∀ r ∈ rs, ValidRule r) → CanonKeys h → NodupKeys h →
     (fieldsOf (applyRules rs h)).Perm (specRules rs (fieldsOf h))
@@ -143,40 +127,29 @@ theorem c16_add_others_untouched (h : HMap) (n v : Bytes) {k : Bytes}
 
 example : ([88, 45, 66, 97, 114] : Bytes) ≠ canonicalKey [120, 45, 102, 111, 111] := by decide
 
-/-- full clause for `%name` ("only changes the spelling, never adds, drops or alters values")
-    — FALSE of the unchanged code when `name` is already the canonical spelling -/
-def c16_rename_preserves_fields_full : Prop :=
-  ∀ h n, ValidRule (.rename n) → CanonKeys h → NodupKeys h →
-    (fieldsOf (renameCase h n)).Perm (fieldsOf h)
-
-/-- `%name` with a non-canonical spelling keeps the multiset of (folded name, value) lines.
-    (`ValidRule (.rename n)` is not needed for this direction and therefore not assumed.) -/
-theorem c16_rename_preserves_fields_partial {h : HMap} {n : Bytes}
-    (hne : canonicalKey n ≠ n) (hc : CanonKeys h) (hn : NodupKeys h) :
+/-- `%name` only changes the spelling, it never adds, drops or alters values: the multiset of
+    (folded name, value) lines is kept, for every name (full clause; F9a repaired).
+    (`ValidRule (.rename n)` is not needed and therefore not assumed.) -/
+theorem c16_rename_preserves_fields {h : HMap} {n : Bytes}
+    (hc : CanonKeys h) (hn : NodupKeys h) :
     (fieldsOf (renameCase h n)).Perm (fieldsOf h) :=
-  fieldsOf_renameCase_perm hne hc hn
+  fieldsOf_renameCase_perm hc hn
 
 -- "%x-foo" on {"X-Foo": ["v"], "X-Bar": ["a"]}; the field is present, so the rule does act
 example :
     let h : HMap := [([88, 45, 70, 111, 111], [[118]]), ([88, 45, 66, 97, 114], [[97]])]
-    ValidRule (.rename [120, 45, 102, 111, 111]) ∧
-      canonicalKey [120, 45, 102, 111, 111] ≠ [120, 45, 102, 111, 111] ∧ CanonKeys h ∧
+    ValidRule (.rename [120, 45, 102, 111, 111]) ∧ CanonKeys h ∧
       NodupKeys h ∧ renameCase h [120, 45, 102, 111, 111] ≠ h := by decide
 
-/-- `%X-Foo` on {"X-Foo": ["v"]} yields the empty map: the field is dropped -/
-theorem c16_rename_canonical_witness :
-    ValidRule (.rename [88, 45, 70, 111, 111]) ∧
-      CanonKeys [([88, 45, 70, 111, 111], [[118]])] ∧
-      NodupKeys [([88, 45, 70, 111, 111], [[118]])] ∧
-      renameCase [([88, 45, 70, 111, 111], [[118]])] [88, 45, 70, 111, 111] = [] ∧
-      ¬ (fieldsOf (renameCase [([88, 45, 70, 111, 111], [[118]])] [88, 45, 70, 111, 111])).Perm
-          (fieldsOf [([88, 45, 70, 111, 111], [[118]])]) := by decide
+/-- `%name` with a name that is already in canonical spelling is the identity on every map -/
+theorem c16_rename_canonical_identity (h : HMap) {n : Bytes} (hcn : canonicalKey n = n) :
+    renameCase h n = h :=
+  renameCase_of_canon h hcn
 
-theorem c16_rename_preserves_fields_full_false : ¬ c16_rename_preserves_fields_full := by
-  intro h
-  exact c16_rename_canonical_witness.2.2.2.2
-    (h _ _ c16_rename_canonical_witness.1 c16_rename_canonical_witness.2.1
-      c16_rename_canonical_witness.2.2.1)
+-- "%X-Foo" on {"X-Foo": ["v"]} (the former F9a witness)
+example : canonicalKey [88, 45, 70, 111, 111] = [88, 45, 70, 111, 111] ∧
+    renameCase [([88, 45, 70, 111, 111], [[118]])] [88, 45, 70, 111, 111] =
+      [([88, 45, 70, 111, 111], [[118]])] := by decide
 
 /-- `%x-foo` then `-x-foo` on {"X-Foo": ["v"]} leaves the line ("x-foo","v") in place although
     the documented meaning removes it: `Del` looks for the canonical key only -/
